@@ -67,6 +67,9 @@ func main() {
 		}
 		parseCase(s)
 	}
+	for i := 0; i < run.Scale(20000, 300000); i++ {
+		constructedCase(r)
+	}
 	for i := 0; i < run.Scale(5000, 100000); i++ {
 		formatCase(registry.Reference{Registry: common.Pick(r, []string{"localhost:5000", "docker.io", ""}),
 			Repository: common.Pick(r, []string{"a/b", "x", ""}),
